@@ -387,6 +387,23 @@ Theorem cadence_refuted :
   exists ts by_ sched now, 0 < by_ /\ ts < sched <= ts + by_ /\ sched <= now /\ grid ts by_ now < sched + by_.
 Proof. exists 13000000, 10000000, 20000000, 21000000. vm_compute. repeat split; discriminate. Qed.
 
+(* the same happens after a first run at deferred_until (off the grid of the timestamp):
+   timestamp 0.525760 s, period 1 s, first slot deferred_until = 4.374151 s, completion at the slot *)
+Theorem cadence_after_deferred_until_refuted :
+  exists ts by_ sched now, 0 < by_ /\ ts < sched /\ sched <= now /\ grid ts by_ now < sched + by_.
+Proof. exists 525760, 1000000, 4374151, 4374151. vm_compute. repeat split; discriminate. Qed.
+
+(* a slot that lies on the grid of the current time base keeps the cadence, however late the run *)
+Theorem cadence_aligned ts by_ k now :
+  0 < by_ -> ts + k * by_ <= now -> ts + k * by_ + by_ <= grid ts by_ now.
+Proof.
+  intros Hpos Hn. unfold grid.
+  pose proof (Z.div_mod (now - ts) by_ ltac:(lia)) as Hdm.
+  pose proof (Z.mod_pos_bound (now - ts) by_ Hpos) as Hb.
+  set (q := (now - ts) / by_) in *. set (r := (now - ts) mod by_) in *.
+  assert (k <= q) by nia. nia.
+Qed.
+
 (* it holds whenever consecutive completions are at least one period apart *)
 Theorem cadence_partial ts by_ sched now :
   0 < by_ -> ts < sched <= ts + by_ -> sched <= now -> by_ <= now - ts -> sched + by_ <= grid ts by_ now.
